@@ -14,7 +14,28 @@ var registry = map[string]PropFn{}
 
 func Register(id string, fn PropFn) { registry[id] = fn }
 
-func Get(id string) PropFn { return registry[id] }
+// extras are rule sets shared between properties (kept outside the per-property files so that a
+// property's own files can be replaced wholesale); they run after the property's own rules.
+var extras = map[string][]PropFn{}
+
+func RegisterExtra(id string, fn PropFn) { extras[id] = append(extras[id], fn) }
+
+func Get(id string) PropFn {
+	base := registry[id]
+	if base == nil {
+		return nil
+	}
+	ex := extras[id]
+	if len(ex) == 0 {
+		return base
+	}
+	return func(r *fw.Run, p *fw.Program) {
+		base(r, p)
+		for _, f := range ex {
+			f(r, p)
+		}
+	}
+}
 
 func IDs() []string {
 	var out []string
